@@ -392,7 +392,7 @@ class C10(Prop):
     props_file = "Props/C10.v"
     preamble = ("From Coq Require Import List ZArith Bool PrimFloat.\nImport ListNotations.\n"
                 "From PP Require Model.C08 Model.C09.\nFrom PP Require Import Model.C10.\n")
-    n_cases = (36, 400)
+    n_cases = (26, 400)
     design_ref = "DESIGN.md §5 C10, Appendix B (NewtonSolver.solve, TimeManager)"
     level_text = (
         "Coq theorems over an executable transcription of the time loop of "
